@@ -228,8 +228,7 @@ Fixpoint count_contains (o : options) (depth : Z) (ct : ty) (i : nat) (items : l
       match enter_tr o depth (route_idx i) ct item with
       | EnterFailed e => Raise e
       | Entered (Ok _) => count_contains o depth ct (S i) rest (n + 1)
-      | Entered (Raise e) => if is_type_or_value_err e then count_contains o depth ct (S i) rest n
-                             else Raise e
+      | Entered (Raise e) => count_contains o depth ct (S i) rest n      (* except Exception: pass *)
       | Entered Diverge => Diverge
       | Entered OutOfFuel => OutOfFuel
       | Entered Unmodelled => Unmodelled
@@ -743,6 +742,8 @@ Definition transform_step (o : options) (depth : Z) (t : ty) (v : pyval) : M pyv
                end
   end.
 End Parse.
+Arguments EnterFailed {A} e.
+Arguments Entered {A} r.
 
 (* tie the knot on fuel *)
 Fixpoint transform (re : string -> string -> bool) (D : decls) (fuel : nat)
